@@ -63,6 +63,10 @@ def gen_case(idx: int, seed: int, tier: str) -> Any:
         # starting at the same time, each waiting for the one below)
         depth = rng.choice([18, 20, 24])
         tree = e2.gen_tree(rng, max_depth=depth, max_nodes=depth + 2, chain=True)
+    elif rng.random() < 0.02:
+        # a *very* wide component: 33-130 children, all of them waiting at once for the child that was declared last
+        fan = rng.choice([33, 40, 65, 70, 130])
+        tree = e2.add_funnel(e2.gen_tree(rng, max_depth=1, max_nodes=fan + 2, root_fan=fan, with_services=False), rng)
     else:
         tree = e2.gen_tree(rng, wait_heavy=rng.random() < 0.3)
     return {"backend": rng.choice(["asyncio", "trio"]), "sched_seed": rng.randrange(1 << 30), "shuffle": rng.random() < 0.5,
